@@ -86,6 +86,17 @@ func execCodec(op string, a []sx) sx {
 	}
 	switch op {
 	case "cread":
+		creadCount++
+		if creadCount%3 == 0 {
+			// what an application does with a decoded record is its own business: an earlier decode of the same bytes whose
+			// empty maps and slices were then written to by the caller must not show in a later decode by the same codec
+			pre := newCell(b.typ)
+			pr := avro.NewReadBuf(a[2].bytes())
+			if err := b.codec.Read(pr, pre.ptr()); err == nil {
+				scribbleEmpties(pre.v, 0)
+			}
+			// its bank is deliberately not returned to the pool: the scribbled record stays the caller's
+		}
 		dst := newCell(b.typ)
 		r := avro.NewReadBuf(a[2].bytes())
 		err := b.codec.Read(r, dst.ptr())
@@ -160,4 +171,51 @@ func wbOut(w *avro.WriteBuf, pre []byte) []byte {
 		return append([]byte("prefix-damaged:"), b...)
 	}
 	return append([]byte(nil), b[len(pre):]...)
+}
+
+var creadCount int
+
+// scribbleEmpties inserts an entry into every empty non-nil map and appends (within capacity or not) to every empty non-nil
+// slice reachable from v - the writes of an application that owns the record
+func scribbleEmpties(v reflect.Value, depth int) {
+	if depth > 12 {
+		return
+	}
+	switch v.Kind() {
+	case reflect.Pointer:
+		if !v.IsNil() {
+			scribbleEmpties(v.Elem(), depth+1)
+		}
+	case reflect.Struct:
+		for i := 0; i < v.NumField(); i++ {
+			if v.Type().Field(i).IsExported() {
+				scribbleEmpties(v.Field(i), depth+1)
+			}
+		}
+	case reflect.Map:
+		if v.IsNil() || !v.CanSet() {
+			return
+		}
+		if v.Len() == 0 && v.Type().Key().Kind() == reflect.String {
+			v.SetMapIndex(reflect.ValueOf("scribbled-by-the-caller").Convert(v.Type().Key()), reflect.Zero(v.Type().Elem()))
+			return
+		}
+		for _, k := range v.MapKeys() {
+			e := v.MapIndex(k)
+			if e.Kind() == reflect.Pointer || e.Kind() == reflect.Map {
+				scribbleEmpties(e, depth+1)
+			}
+		}
+	case reflect.Slice:
+		if v.IsNil() || !v.CanSet() {
+			return
+		}
+		if v.Len() == 0 {
+			v.Set(reflect.Append(v, reflect.Zero(v.Type().Elem())))
+			return
+		}
+		for i := 0; i < v.Len(); i++ {
+			scribbleEmpties(v.Index(i), depth+1)
+		}
+	}
 }
